@@ -251,17 +251,19 @@ func mapDynamoToTypesSliceItem(input []dynamodbtypes.AttributeValue) []*types.It
 func mapDynamoToTypesItem(item dynamodbtypes.AttributeValue) *types.Item {
 	itemB, ok := item.(*dynamodbtypes.AttributeValueMemberB)
 	if ok {
-		return &types.Item{B: itemB.Value}
+		return &types.Item{B: cloneBytes(itemB.Value)}
 	}
 
 	itemBOOL, ok := item.(*dynamodbtypes.AttributeValueMemberBOOL)
 	if ok {
-		return &types.Item{BOOL: &itemBOOL.Value}
+		value := itemBOOL.Value
+
+		return &types.Item{BOOL: &value}
 	}
 
 	itemBS, ok := item.(*dynamodbtypes.AttributeValueMemberBS)
 	if ok {
-		return &types.Item{BS: itemBS.Value}
+		return &types.Item{BS: cloneByteSlices(itemBS.Value)}
 	}
 
 	itemS, ok := item.(*dynamodbtypes.AttributeValueMemberS)
@@ -540,7 +542,7 @@ func mapTypesToDynamoLocalSecondaryIndexes(input []types.LocalSecondaryIndexDesc
 func mapTypesToDynamoItem(item *types.Item) dynamodbtypes.AttributeValue {
 	if len(item.B) != 0 {
 		return &dynamodbtypes.AttributeValueMemberB{
-			Value: item.B,
+			Value: cloneBytes(item.B),
 		}
 	}
 
@@ -552,7 +554,7 @@ func mapTypesToDynamoItem(item *types.Item) dynamodbtypes.AttributeValue {
 
 	if len(item.BS) != 0 {
 		return &dynamodbtypes.AttributeValueMemberBS{
-			Value: item.BS,
+			Value: cloneByteSlices(item.BS),
 		}
 	}
 
@@ -680,4 +682,30 @@ func mapKnownError(err error) error {
 	}
 
 	return err
+}
+
+// the stored items must not share memory with the structures of the caller: byte slices that cross the API are copied
+
+func cloneBytes(b []byte) []byte {
+	if b == nil {
+		return nil
+	}
+
+	c := make([]byte, len(b))
+	copy(c, b)
+
+	return c
+}
+
+func cloneByteSlices(l [][]byte) [][]byte {
+	if l == nil {
+		return nil
+	}
+
+	c := make([][]byte, len(l))
+	for i, b := range l {
+		c[i] = cloneBytes(b)
+	}
+
+	return c
 }
